@@ -12,7 +12,8 @@
    outcome of the exhaust-buffer loop; theorems either exclude it or (findings) exhibit it. *)
 From Coq Require Import List ZArith Permutation Sorting.
 From TskVerif Require Import Base.Common Gen.Generated C12.Model C12.BytesProofs C12.RoundTripProofs
-  C12.LayoutProofs C12.OrderProofs C12.ExhaustProofs C12.ValidProofs C12.JsonProofs.
+  C12.LayoutProofs C12.OrderProofs C12.ExhaustProofs C12.ValidProofs C12.JsonProofs C12.NormProofs
+  C12.StringProofs.
 Import ListNotations.
 Open Scope Z_scope.
 
@@ -59,6 +60,24 @@ Theorem exhaust_tail_roundtrip : forall round32 widen32 req ps k m it v bs fuel,
   decode widen32 fuel (SObj req (ps ++ [(k, m, SArr AExhaust it)])) bs =
     DOk (norm round32 widen32 (SObj req (ps ++ [(k, m, SArr AExhaust it)])) v) [].
 Proof. exact ExhaustProofs.exhaust_tail_roundtrip. Qed.
+
+(* the normal form is a fixed point: a decoded row encodes and decodes to itself.  Needs that
+   binary32 -> binary64 -> binary32 is the identity (hypothesis on the platform conversion) *)
+Theorem norm_idempotent : forall round32 widen32,
+  (forall w, 0 <= w < 2 ^ 32 -> round32 (widen32 w) = Some w) ->
+  forall s, nodup_keys s -> forall v,
+  norm round32 widen32 s (norm round32 widen32 s v) = norm round32 widen32 s v.
+Proof. exact NormProofs.norm_idempotent. Qed.
+
+(* ---- schema -> string -> schema ---- *)
+(* repr = canonical_json of the modified schema (every property map in name order); parsing it
+   and modifying again yields the same ordered schema, hence the same encode/decode/validate *)
+Theorem schema_string_roundtrip : forall s, nodup_keys s -> modify (canon (modify s)) = modify s.
+Proof. exact StringProofs.schema_string_roundtrip. Qed.
+
+Theorem order_by_index_order_independent : forall ps ps',
+  Permutation ps ps' -> NoDup (map pkey ps) -> sort_props ps = sort_props ps'.
+Proof. exact sort_props_perm_invariant. Qed.
 
 (* ---- (b) layout ---- *)
 Theorem struct_layout : forall round32 req ps kv bs,
